@@ -5,3 +5,7 @@ package twig
 // vhook marks a critical point for the verification harness; without the
 // "verif" build tag it does nothing.
 func vhook(point string) {}
+
+// vpool marks the traffic of the render-context pools for the verification
+// harness; without the "verif" build tag it does nothing.
+func vpool(ev, pool string, obj interface{}, n int) {}
